@@ -312,6 +312,22 @@ class RelEval:
                 for c in g.ifs:
                     pend += self._apply_cond(c, True, env2)
             return self._finish(self.ev(e.elt, env2, at), pend, env2, at)
+        if isinstance(e, ast.BoolOp) and isinstance(e.op, ast.Or) and len(e.values) == 2:
+            # `[c for c in p.all_children if not c.children] or [p]`: the leaves below p, or p itself when there are none -
+            # the first operand is empty exactly when p has no children
+            a, b = self.ev(e.values[0], env, at), self.ev(e.values[1], env, at)
+            out: Paths = {}
+            ok = bool(a) and bool(b)
+            for kb, cb in b.items():
+                hits = [ka for ka in a if ka[:len(kb)] == kb and ka[len(kb):] in (('all_children', 'leaf?'), ('all_children', 'leaves'),
+                                                                                   ('children', 'leaves'))]
+                if len(hits) != 1 or not unconditional(cb) or not unconditional(a[hits[0]]):
+                    ok = False
+                    break
+                out = _union(out, {kb + ('leaves',): list(UNCOND)})
+            if ok and len(a) == len(b):
+                return out
+            raise Unknown(e, f"`{src(e)[:80]}`: an `or` between two collections the rule cannot relate")
         if isinstance(e, ast.IfExp):
             ea, eb = dict(env), dict(env)
             pa = self._apply_cond(e.test, True, ea)
@@ -656,6 +672,13 @@ def recognise_fold(ctx, f: Func, store_stmt: ast.stmt, value: ast.AST) -> Fold:
                 et = empty_test(t, p)
                 if et and et[1] and same(ex.expand(et[0], cfg.node_containing(t)), fo.iter):
                     ok = True
+                # `if acc == math.inf:` / `if math.isinf(acc):` after a fold that started at infinity
+                if fo.init is not None and _is_inf(fo.init) and p:
+                    mi = match(f"{acc} == $i", t) or match(f"{acc} is $i", t) or match(f"$i == {acc}", t)
+                    if mi and _is_inf(mi['i']) == _is_inf(fo.init):
+                        ok = True
+                    if match(f"math.isinf({acc})", t) or match(f"isinf({acc})", t):
+                        ok = True
             if not ok:
                 raise Unknown(d.stmt, "assignment to the accumulator after the loop is not under `acc is None` / empty test")
             if fo.default is not None:
